@@ -715,14 +715,27 @@ def usesFitness : Op Float → Bool
   | .deBest _ | .deCurrentToBest _ | .iwo _ _ => true
   | _ => false
 
-/-- the harness' 'extreme' stream: some finite value beyond 1e150 (objective or offset) -/
+/-- The harness' 'extreme' stream: the weight arithmetic of RouletteWheel / SUS / IWO may overflow to
+inf / NaN or underflow to 0 — every objective finite and `len · ((max − min) + offset)` not below 1e300 (no
+way of writing the weights, their total or the selection points exceeds that bound), or a spread
+`max − min` / an offset that is positive but below 1e-290 (the distance `total / n` between two SUS points
+underflows to 0 for objectives that differ by a subnormal amount), or an offset beyond 1e150.  Every other
+operator only COMPARES objective values (nothing can overflow), and a population with a `+inf` member
+is a documented `Err` of the three weight based operators before any arithmetic is done. -/
 def isExtreme (op : Op Float) (cur : FPop) : Bool :=
   let big (v : Float) : Bool := v.isFinite && v.abs > 1e150
-  cur.all (fun i => i.obj.isSome) &&
-  (cur.any (fun i => big (objOf i)) ||
-   match op with
-   | .rouletteWheel _ off | .sus _ off => big off
-   | _ => false)
+  let tiny (v : Float) : Bool := 0 < v && v < 1e-290
+  let risk (off : Float) : Bool :=
+    let objs := cur.map objOf
+    let spread := ((maxF objs).getD 0) - ((minF objs).getD 0)
+    cur.all (fun i => i.obj.isSome) &&
+    (big off ||
+     (!objs.isEmpty && objs.all Float.isFinite &&
+      (tiny off || tiny spread || !(objs.length.toFloat * (spread + off.abs) ≤ 1e300))))
+  match op with
+  | .rouletteWheel _ off | .sus _ off => risk off
+  | .iwo _ _ => risk 0
+  | _ => false
 
 def inQuantifier (op : Op Float) (stack : List FPop) : Bool :=
   ctorOk op &&
@@ -731,15 +744,18 @@ def inQuantifier (op : Op Float) (stack : List FPop) : Bool :=
   | cur :: _ =>
     -- an unevaluated member is outside the quantifier only for the operators that read objective values
     (cur.all (fun i => i.obj.isSome) || !usesFitness op) &&
-    -- finite values beyond 1e150 make the weight arithmetic overflow: outside the (exact-arithmetic) property
-    cur.all (fun i => let o := objOf i; !o.isFinite || o.abs ≤ 1e150) &&
+    -- where the weight arithmetic can overflow: outside the (exact-arithmetic) property; the whole range of
+    -- objective values (−f64::MAX … f64::MAX, +inf, signed zeros, subnormals) is inside for everything else
+    !isExtreme op cur &&
     match op with
     | .rouletteWheel _ off | .sus _ off => 0 ≤ off && off.isFinite && off ≤ 1e150
     | _ => true
 
 def handleSel (args : List Sexp) (implOut : Sexp) : Option CaseResult := do
+  -- an optional 4th argument `(via select)`: `Selection::select` was called directly (same model: `step`)
   let (opS, stackS) ← match args with
     | [o, _, s] => some (o, s)
+    | [o, _, s, _] => some (o, s)
     | _ => none
   let op ← parseOp opS
   let stack ← (← tagged? "stack" stackS).mapM parsePop
@@ -915,7 +931,14 @@ def handleCase (input implOut : Sexp) : Option CaseResult :=
         | _, _ => some "wrong-value"
       | .atom "none" => if objs.isEmpty then none else some "wrong-value"
       | _ => some "panic"
-    pure { agree := Sexp.beq model implOut, cls, model }
+    -- the sign of a zero bound is not pinned down (`f64::min(-0.0, 0.0)` may return either)
+    let agree := Sexp.beq model implOut || match objectiveBounds objs, implOut with
+      | some (mx, mn), .list [.atom "b", mxS, mnS] =>
+        (match float? mxS, float? mnS with
+         | some a, some b => a == mx && b == mn
+         | _, _ => false)
+      | _, _ => false
+    pure { agree, cls, model }
   | .list [.atom "freq", _, objsS, .list [.atom "draws", dS], _] => do
     let objs ← floatsOf objsS "objs"
     let draws ← nat? dS
